@@ -256,6 +256,24 @@ func runC18(c *Ctx) {
 			c.obI("R18.4", r, "RootCAs-set-when-"+o.name, !miss, "every success path on which opts."+o.name+" is present stores tls.Config.RootCAs (never falls back to the system pool)", "a success path with the option present leaves RootCAs unset")
 		}
 	}
+	// the options are used as given: TLSClientAuth never rewrites a field of its options before (or after) testing it —
+	// a location is the text the caller supplied (no environment expansion, trimming or defaulting: an unusable location
+	// has to fail as such, not turn into "not supplied")
+	for _, in := range instrs(f) {
+		st, ok := in.(*ssa.Store)
+		if !ok {
+			continue
+		}
+		fa, ok := st.Addr.(*ssa.FieldAddr)
+		if !ok {
+			continue
+		}
+		n, stt := structOf(fa.X.Type())
+		if n == nil || typeFullName(n) != "rt/client.TLSClientOptions" {
+			continue
+		}
+		c.obD("R18.1", st, "options-used-as-given", false, "no field of the TLSClientOptions is rewritten", "opts."+stt.Field(fa.Field).Name()+" is overwritten with "+describe(st.Val)+" before it is tested and used")
+	}
 	// every call builds its OWN configuration: what is returned is allocated by this call — never a package-level value
 	// that later calls (and the callers' own edits of the returned config) would share
 	for _, r := range succ {
